@@ -335,6 +335,12 @@ def getitem(interp, obj, idx):
         i = norm_index(interp, idx, n)
         _, rest = ops.split_at(interp, obj.rope, i)
         one, _ = ops.split_at(interp, rest, 1)
+        if isinstance(one[0], Blk):
+            # `one` has exactly one octet (0 <= i < n): if it holds one element entry, every block beside it is empty
+            els = [e for e in ops.norm(one) if not isinstance(e, Blk)]
+            if len(els) != 1:
+                raise Unsupported("indexing: element not isolated from symbolic blocks")
+            return wrap_elem(els[0])
         return wrap_elem(one[0])
     if isinstance(obj, (PyList, PyDeque)) or isinstance(obj, tuple):
         items = obj if isinstance(obj, tuple) else obj.items
